@@ -362,6 +362,7 @@ prop("C19", "exploration",
      [
          {"harness": "eng", "flavour": "shim", "args": {"quick": ["--mode", "c19"], "thorough": ["--mode", "c19"]}, "timeout": {"quick": 1200, "thorough": 3500}},
          {"harness": "eng", "flavour": "shim", "tags": ["poll_opt"], "args": {"quick": ["--mode", "c19", "--n", "6"], "thorough": ["--mode", "c19", "--n", "60"]}, "timeout": {"quick": 1200, "thorough": 3500}},
+         {"harness": "wake", "flavour": "shim+points", "args": {"quick": ["--n", "6000"], "thorough": ["--n", "100000"]}, "timeout": {"quick": 900, "thorough": 3400}},
      ],
      "State-model monitor over the control API with calls racing an ongoing shutdown.",
      "in the shutting-down state any result is accepted (the statement only demands no hang, panic or resurrection)",
@@ -377,7 +378,11 @@ NOT_APPLICABLE = []
 RULE_ADDENDA = {
     "C03": "Added: every 16th iteration of the poller harness the requests arrive together with 5-128 ready descriptors of the harness in ONE "
            "epoll_wait batch (a gate descriptor's callback holds the loop meanwhile), so that batches of exactly the current event-list size "
-           "occur; the c02 engine job also issues empty AsyncWrite/AsyncWritev requests whose callbacks must run exactly once.",
+           "occur; every 256th iteration the low-priority overflow race of Trigger is staged (a task on the loop fills the urgent queue beyond 1024 and "
+           "holds the loop, an outside producer is paused by a focus point between the length test and its Enqueue, the loop is released and goes "
+           "idle, then the producer goes on: its request must still wake the loop); the c02 engine job also issues empty AsyncWrite/AsyncWritev "
+           "requests whose callbacks must run exactly once; Wake(callback) on already closed connections: an accepted request runs its callback "
+           "exactly once.",
     "C02": "Added: operations that move no bytes (empty Write / Writev, ReadFrom of a reader at EOF followed by Flush, empty asynchronous "
            "writes), segment vectors of 1025-1300 and 2049-3000 entries, OnOpen replies of 1-3 MiB.",
     "C04": "Added: EventLoop.Close inside OnOpen, close requests inside OnClose, an empty datagram sent to a connected client UDP socket "
@@ -388,7 +393,8 @@ RULE_ADDENDA = {
     "C06": "Added: shutdown requested through the low-priority queue (> 1024 asynchronous writes pending), every OnClose returning Shutdown once "
            "armed, the connection whose OnClose asks for shutdown closed five ways (peer FIN, failed write inside OnTraffic, Close action, "
            "EventLoop.Close, Conn.Close), a non-retryable accept4 error in reactor and in SO_REUSEPORT mode with connections open, several "
-           "listeners (Rotate), client engines (Client.Stop, twice, and after a callback returned Shutdown); idle-loops and livelock predicates "
+           "listeners (Rotate), client engines (Client.Stop, twice, and after a callback returned Shutdown), Shutdown returned by the OnOpen of a "
+           "connection brought in through Engine.Register; idle-loops and livelock predicates "
            "besides identical goroutine dumps.",
     "C07": "Added: failed starts (k-th epoll_create1 / eventfd / epoll_ctl ADD failing with EMFILE for Run and Client.Start; listen address in "
            "use for Run - tcp, tcp6, udp, SO_REUSEPORT - and for the second address of Rotate): Run returns the error, every descriptor "
@@ -417,11 +423,14 @@ RULE_ADDENDA = {
            "times and '%name' must convert to the current index each time; the UDP lives of C08 (RemoteAddr = sender incl. zone, LocalAddr = "
            "listener) run as a job of this property too.",
     "C18": "Added: EAGAIN on the wake-up eventfd write that hands a new connection to its loop (retryable: the connection must be served); "
+           "the write of the OnOpen reply (inside conn.open) failing with EPIPE / ECONNRESET; recvfrom EAGAIN on a UDP listener; "
            "after every fault Engine.CountConnections must equal opened minus closed; pairs are installed chained (the second fault is bound to "
            "the descriptor the first one hit); a poll_opt job in the quick tier.",
     "C19": "Added: Register with a net.Conn that is already closed or being closed by its owner; half of the live-context lives run a frequent, "
            "slow ticker (no callback may be executing when Stop returns nil or Run returns); two client-engine lives per run (Client.Stop after a "
-           "callback returned Shutdown, Client.Stop twice); failed starts as in C07; a poll_opt job.",
+           "callback returned Shutdown, Client.Stop twice); failed starts as in C07; a poll_opt job; Stop issued during OnBoot (expired context inside OnBoot, live context from a "
+           "goroutine while OnBoot runs): the engine comes up and goes down in full; the poller-level wake-up harness of C03 (Register / "
+           "Execute travel through the same task queues; leftovers beyond 256 low-priority tasks per round must be re-armed).",
 }
 for _pid, _txt in RULE_ADDENDA.items():
     PROPS[_pid]["rule"] += " " + _txt
